@@ -7,10 +7,16 @@ ops:
   layout
   reset <nrec|nofile> <tail> <seed> <shm: MAX int32 values, comma separated> <disk: nrec int32 values | ->
   set <uid> <money> | de <uid> <money> | get <uid>            (int32 decimals)
+  syncquery <uid>                       ptt.GetUser -> passwdSyncQuery
+  load <uid>                            the same; the caller keeps the returned record as its copy for <uid>
+  permupdate <uid> <staleMoney> <perm>  ptt.SetUserPerm with the kept copy (a zero record when none was loaded),
+                                        whose Money is first set to <staleMoney>; <perm> is a uint32
 answers:
-  layout: max=.. sz=.. off=.. fsz=..
+  layout: max=.. sz=.. off=.. fsz=.. lvl=.. bools=..
   reset : ok len=.. shmd=.. rest=..
   op    : <ret|PANIC> <ok|invalid-uid|io|-> shm=<v|-> disk=<hex4|-> len=<n|-> shmd=<fnv64> rest=<fnv64|->
+  syncquery/load: <ok|invalid-userid|io|PANIC> money=<v|-> recd=<fnv64 of the other bytes of the record|-> + observation + lvl=<hex4|->
+  permupdate    : <perm|PANIC> <class> + observation + lvl=<hex4|->
 -/
 
 namespace C20Drv
@@ -65,6 +71,7 @@ def mkFile (seed : Nat) (n : Nat) (vals : List Int) : List Nat := Id.run do
 def showErr : Err → String
   | .none => "ok"
   | .invalidUID => "invalid-uid"
+  | .invalidUserID => "invalid-userid"
   | .io => "io"
 
 /-- the observation printed after every operation. -/
@@ -88,17 +95,67 @@ def showAns (a : Ans) : String :=
   | .ok (v, e) => s!"{v} {showErr e}"
   | .error f => s!"{f} -"
 
-def doOp (st : Option State) (o : Op) (u : Int) : Option State × String :=
-  match st with
-  | none => (none, "bad-op")
+/-- driver state: the model state and the record copies the caller holds (slot ↦ serialised record). -/
+structure DState where
+  st : Option State := none
+  stale : List (Int × List Nat) := []
+
+def lvlOf (s : State) (u : Int) : String :=
+  match s.file with
+  | none => "-"
+  | some f =>
+      let off := Gen.Money.recSize * (u - 1).toNat + Gen.Money.userLevelOffset
+      if (1 ≤ u ∧ u ≤ (Gen.Money.maxUsers : Int)) ∧ off + 4 ≤ f.length then toHex ((f.drop off).take 4) else "-"
+
+def observe2 (s : State) (u : Int) : String := observe s u ++ " lvl=" ++ lvlOf s u
+
+def doOp (d : DState) (o : Op) (u : Int) : DState × String :=
+  match d.st with
+  | none => (d, "bad-op")
   | some s =>
       let (s', a) := step s o
-      (some s', showAns a ++ " " ++ observe s' u)
+      ({ d with st := some s' }, showAns a ++ " " ++ observe s' u)
 
-def stepC20 (st : Option State) (ws : List String) : Option State × String :=
+def lookupStale (d : DState) (u : Int) : List Nat :=
+  match d.stale.lookup u with
+  | some r => r
+  | none => List.replicate Gen.Money.recSize 0
+
+def putStale (d : DState) (u : Int) (r : List Nat) : DState :=
+  { d with stale := (u, r) :: d.stale.filter (fun p => p.1 != u) }
+
+def doQuery (d : DState) (u : Int) (keep : Bool) : DState × String :=
+  match d.st with
+  | none => (d, "bad-op")
+  | some s =>
+      match passwdSyncQuery s u with
+      | .error f => (d, s!"{f} money=- recd=- " ++ observe2 s u)
+      | .ok (.error e) => (d, s!"{showErr e} money=- recd=- " ++ observe2 s u)
+      | .ok (.ok rec) =>
+          let money := match dec32? ((rec.drop MOFF).take 4) with
+            | some v => toString v
+            | none => "-"
+          let others := rec.take MOFF ++ rec.drop (MOFF + 4)
+          let d' := if keep then putStale d u rec else d
+          (d', s!"ok money={money} recd={hex16 (fnv others)} " ++ observe2 s u)
+
+def doPerm (d : DState) (u m : Int) (perm : Nat) : DState × String :=
+  match d.st with
+  | none => (d, "bad-op")
+  | some s =>
+      let rec0 := recSetMoney (lookupStale d u) m
+      let (s', a) := step s (.sync u rec0 perm)
+      -- the caller's copy afterwards: UserLevel = perm, and Money = MoneyOf(uid) when passwdSyncUpdate got that far
+      let rec1 := recSetLevel rec0 perm
+      let rec2 := if uidIsValid u then (match moneyOf s u with | .ok v => recSetMoney rec1 v | .error _ => rec1) else rec1
+      let d' := putStale { d with st := some s' } u rec2
+      (d', showAns a ++ " " ++ observe2 s' u)
+
+def stepC20 (d : DState) (ws : List String) : DState × String :=
+  let st := d
   match ws with
   | ["layout"] =>
-      (st, s!"max={Gen.Money.maxUsers} sz={Gen.Money.recSize} off={Gen.Money.moneyOffset} fsz={Gen.Money.moneySize}")
+      (st, s!"max={Gen.Money.maxUsers} sz={Gen.Money.recSize} off={Gen.Money.moneyOffset} fsz={Gen.Money.moneySize} lvl={Gen.Money.userLevelOffset} bools={if Gen.Money.boolOffsets.isEmpty then "-" else ",".intercalate (Gen.Money.boolOffsets.map toString)}")
   | ["reset", nrec, tail, seed, shm, disk] =>
       match parseNat tail 6, parseNat seed 19, parseCsv shm, parseCsv disk with
       | some tail, some seed, some shm, some disk =>
@@ -106,14 +163,14 @@ def stepC20 (st : Option State) (ws : List String) : Option State × String :=
           if nrec = "nofile" then
             if disk.length ≠ 0 ∨ tail ≠ 0 then (st, "bad-op") else
             let s : State := { shm := shm, file := none }
-            (some s, s!"ok len=- shmd={hex16 (fnv (s.shm.flatMap le32))} rest=-")
+            ({ st := some s, stale := [] }, s!"ok len=- shmd={hex16 (fnv (s.shm.flatMap le32))} rest=-")
           else match parseNat nrec 4 with
             | none => (st, "bad-op")
             | some n =>
                 if disk.length ≠ n ∨ n > 2 * Gen.Money.maxUsers ∨ tail ≥ Gen.Money.recSize then (st, "bad-op") else
                 let f := mkFile seed (Gen.Money.recSize * n + tail) disk
                 let s : State := { shm := shm, file := some f }
-                (some s, s!"ok len={f.length} shmd={hex16 (fnv (s.shm.flatMap le32))} rest={hex16 (fnv f)}")
+                ({ st := some s, stale := [] }, s!"ok len={f.length} shmd={hex16 (fnv (s.shm.flatMap le32))} rest={hex16 (fnv f)}")
       | _, _, _, _ => (st, "bad-op")
   | ["set", u, m] =>
       match parseI32 u, parseI32 m with
@@ -127,8 +184,20 @@ def stepC20 (st : Option State) (ws : List String) : Option State × String :=
       match parseI32 u with
       | some u => doOp st (.get u) u
       | none => (st, "bad-op")
+  | ["syncquery", u] =>
+      match parseI32 u with
+      | some u => doQuery st u false
+      | none => (st, "bad-op")
+  | ["load", u] =>
+      match parseI32 u with
+      | some u => doQuery st u true
+      | none => (st, "bad-op")
+  | ["permupdate", u, m, perm] =>
+      match parseI32 u, parseI32 m, parseNat perm 10 with
+      | some u, some m, some perm => if perm < 4294967296 then doPerm st u m perm else (st, "bad-op")
+      | _, _, _ => (st, "bad-op")
   | _ => (st, "bad-op")
 
 end C20Drv
 
-def main : IO Unit := runHandler { init := (none : Option State), step := C20Drv.stepC20 }
+def main : IO Unit := runHandler { init := ({} : C20Drv.DState), step := C20Drv.stepC20 }
